@@ -92,8 +92,9 @@ Extreme(cs, q, hi) ==
 \* offset of the most recent extreme among the `len` candles ending at i0 (missing skipped)
 RECURSIVE BarWalk(_, _, _, _, _, _, _, _)
 BarWalk(cs, r, i0, len, k, best, dist, hi) ==
-  IF k >= len \/ i0 - k < 0 THEN dist
-  ELSE LET v == At(cs, r, i0 - k)
+  \* (deviation "analysis_wraps": as shipped, a negative position wrapped around to the end of the list)
+  IF k >= len \/ (i0 - k < 0 /\ "analysis_wraps" \notin Dev) \/ i0 - k < -Len(cs) THEN dist
+  ELSE LET v == At(cs, r, IF i0 - k < 0 THEN Len(cs) + i0 - k ELSE i0 - k)
        IN IF ~NumV(v) THEN BarWalk(cs, r, i0, len, k + 1, best, dist, hi)
           ELSE IF IsNaR(best) THEN BarWalk(cs, r, i0, len, k + 1, NumOf(v), k, hi)
           ELSE IF (hi /\ Lt(best, NumOf(v))) \/ (~hi /\ Gt(best, NumOf(v)))
